@@ -4,7 +4,9 @@ import glob, json, os, shutil, subprocess, sys, tempfile
 from concurrent.futures import ThreadPoolExecutor
 ALL = ['C02','C03','C04','C05','C06','C07','C08','C09','C10','C11','C13','C14','C15','C16','C17','C18','C19','C20']
 dirs = sorted(d for d in glob.glob('/verif/seeded/*') if os.path.exists(d + '/patch.diff'))
-only = sys.argv[1:]
+only = [a for a in sys.argv[1:] if not a.startswith('--props=')]
+PROPS = [a[len('--props='):].split(',') for a in sys.argv[1:] if a.startswith('--props=')]
+PROPS = PROPS[0] if PROPS else ALL   # --props=C04,C09: re-run only these checks and merge into the recorded results
 if only: dirs = [d for d in dirs if any(os.path.basename(d).startswith(o) for o in only)]
 scratch = {}
 for d in dirs:
@@ -22,7 +24,7 @@ def one(job):
     first = [l for l in r.stdout.splitlines() if ' VIOLATED at ' in l or l.startswith('ANALYSIS-ERROR')]
     return d, p, r.returncode, (first[0][:400] if first else '')
 try:
-    jobs = [(d, p) for d in scratch for p in ALL]
+    jobs = [(d, p) for d in scratch for p in PROPS]
     res = {}
     with ThreadPoolExecutor(16) as ex:
         for d, p, c, first in ex.map(one, jobs):
@@ -32,6 +34,11 @@ try:
         mp = d + '/meta.json'
         meta = json.load(open(mp)) if os.path.exists(mp) else {'property': os.path.basename(d).split('-')[0]}
         prop = meta.get('property', '')
+        prev = meta.get('check_results', {})
+        prevfirst = meta.get('first_reports', {})
+        for p in ALL:
+            if p not in res[d]:
+                res[d][p] = (prev.get(p, 0), prevfirst.get(p, ''))
         det = [p for p in ALL if res[d][p][0] == 1]; und = [p for p in ALL if res[d][p][0] == 2]
         meta['check_results'] = {p: res[d][p][0] for p in ALL}
         meta['detected_by'] = det; meta['undecided_by'] = und
